@@ -1,6 +1,7 @@
 // C06: frg::rbtree / rbtree_order vs a reference order, checked through the public navigation API after every operation.
 #include "common/verif.hpp"
 #include <frg/rbtree.hpp>
+#include <optional>
 #include <vector>
 #include <algorithm>
 #include <numeric>
@@ -14,7 +15,17 @@ struct Node {
 	size_t agg_size = 0; // maintained by SizeAgg (subtree size)
 	frg::rbtree_hook hook;
 };
-struct Less { bool operator()(const Node &a, const Node &b) const { return a.key < b.key; } };
+// The comparator carries state (a direction): the tree has to keep the comparator object it was given (or its default state)
+// and order by it. State that is neither +1 nor -1 means the tree lost or never initialised its comparator.
+static uint64_t g_less_bad_state = 0;
+static int g_dir = 1; // direction of the tree under test (the reference sequence follows it)
+struct Less {
+	int dir = 1;
+	Less() = default;
+	explicit Less(int d) : dir(d) {}
+	bool operator()(const Node &a, const Node &b) const { if(dir != 1 && dir != -1) g_less_bad_state++; return dir < 0 ? a.key > b.key : a.key < b.key; }
+};
+template<typename T> static constexpr bool takes_comparator = std::is_constructible_v<T, Less>;
 
 struct SizeAgg;
 using Tree = frg::rbtree<Node, &Node::hook, Less, SizeAgg>;
@@ -121,7 +132,7 @@ static void check_removed(Node *x) {
 // reference insert: after all elements with key <= new key (equal keys in insertion order)
 static void ref_insert(std::vector<Node *> &ref, Node *x) {
 	size_t pos = 0;
-	while(pos < ref.size() && !(x->key < ref[pos]->key)) pos++;
+	while(pos < ref.size() && !(g_dir < 0 ? x->key > ref[pos]->key : x->key < ref[pos]->key)) pos++;
 	ref.insert(ref.begin() + pos, x);
 }
 static void ref_remove(std::vector<Node *> &ref, Node *x) { ref.erase(std::find(ref.begin(), ref.end(), x)); }
@@ -142,8 +153,11 @@ static void exhaustive_perm(const char *mode, int n, int keyvariant, bool reinse
 			begin_case(mode, my);
 			g_bad = false; g_trace.clear();
 			for(int i = 0; i < n; i++) { pool[i].id = i; pool[i].key = keyvariant == 0 ? i : keyvariant == 1 ? i / 2 : keyvariant == 2 ? 0 : (i % 2); pool[i].agg_size = 0; new (&pool[i].hook) frg::rbtree_hook(); }
+			g_dir = (takes_comparator<T> && my % 3 == 2) ? -1 : 1; g_less_bad_state = 0;
 			bool completed = guarded("C06", [&] {
-				T tree;
+				std::optional<T> tree_box;
+				if constexpr (takes_comparator<T>) { if(g_dir < 0) tree_box.emplace(Less(-1)); else tree_box.emplace(); } else tree_box.emplace();
+				T &tree = *tree_box;
 				std::vector<Node *> ref;
 				for(int i = 0; i < n && !g_bad; i++) {
 					Node *x = &pool[ins[i]];
@@ -166,6 +180,8 @@ static void exhaustive_perm(const char *mode, int n, int keyvariant, bool reinse
 				}
 			});
 			if(!completed) { for(auto &p : pool) new (&p.hook) frg::rbtree_hook(); }
+			if(g_less_bad_state) { fail("comparator-state", strf("the tree called its comparator %llu times with a state that is neither the one it was constructed with nor the default", (unsigned long long)g_less_bad_state)); g_less_bad_state = 0; }
+			g_dir = 1;
 			count("exhaustive_histories");
 		} while(std::next_permutation(rem.begin(), rem.end()));
 	} while(std::next_permutation(ins.begin(), ins.end()));
@@ -235,8 +251,11 @@ static void random_histories(const char *mode, uint64_t ncases, size_t maxn, uns
 			out.push_back(&pool[i]);
 		}
 		case_detail("N=%zu stream=%d seed=%llu", N, stream, (unsigned long long)cs);
+		g_dir = (takes_comparator<T> && c % 3 == 2) ? -1 : 1; g_less_bad_state = 0;
 		bool completed = guarded("C06", [&] {
-			T tree;
+			std::optional<T> tree_box;
+			if constexpr (takes_comparator<T>) { if(g_dir < 0) tree_box.emplace(Less(-1)); else tree_box.emplace(); } else tree_box.emplace();
+			T &tree = *tree_box;
 			int phase = 0;
 			for(unsigned i = 0; i < nops && !g_bad; i++) {
 				if(i % 97 == 0) phase = r.below(3);
@@ -266,6 +285,9 @@ static void random_histories(const char *mode, uint64_t ncases, size_t maxn, uns
 			while(!ref.empty() && !g_bad) { Node *x = ref[r.below(ref.size())]; tree.remove(x); ref_remove(ref, x); check_removed(x); if(ref.size() % check_every == 0) full_check<T, HasAgg>(tree, ref); }
 		});
 		(void)completed;
+		if(g_less_bad_state) { fail("comparator-state", strf("the tree called its comparator %llu times with a state that is neither the one it was constructed with nor the default", (unsigned long long)g_less_bad_state)); g_less_bad_state = 0; }
+		if(g_dir < 0) count("histories_with_a_comparator_passed_to_the_constructor");
+		g_dir = 1;
 		count("random_histories");
 	}
 }
